@@ -42,6 +42,8 @@ def menu(lab, kind, small=False):
     m = [["full"], ["s", lab[0]], ["s", ab], ["l", [lab[-1]]], ["l", lab[::-1]], ["l", [lab[0], lab[-1], lab[0]]],
          ["l", [lab[0], ab]], ["l", []], ["nd", [lab[-1], lab[0]]], ["m", [i % 2 == 0 for i in range(n)]],
          ["m", [False] * n], ["nps", lab[-1]], ["ml", [i == n - 1 for i in range(n)]], ["nd", []]]
+    if n >= 3:
+        m.append(["l", lab[1:] + lab[:1]])      # rotation: a permutation that is not its own inverse
     if kind in "if":   # fractional query hugging a label: must not be truncated / rounded onto it
         eps = 0.5 if kind == "i" else 0.125
         m = m + [["s", lab[0] + eps], ["l", [lab[-1], lab[0] - eps]]]
